@@ -693,7 +693,8 @@ func runImage(u unit, c *collector) {
 	w := openWAL(path, false)
 	var want []byte
 	L := &layout{}
-	nextH := uint64(1)
+	lastH := uint64(0)
+	heights := []uint64{0}
 	var perr []viol
 	for pos, code := range ops {
 		p, pv := catch(func() {
@@ -703,13 +704,17 @@ func runImage(u unit, c *collector) {
 			}
 			k, sync := kind(code/2), code%2 == 1
 			h, mk := uint64(0), int64(-1)
-			if k == kEndHeight {
-				h, mk = nextH, int64(nextH)
-				nextH++
+			if k.isMarker() {
+				lastH = markerHeight(k, lastH)
+				h, mk = lastH, int64(lastH)
+				heights = append(heights, h)
 			}
 			m := mkMsg(k, pos, h)
 			t := fixedT0.Add(time.Duration(pos) * time.Second)
 			payload := ser.MustEncodeToBytes(&cs.TimedWALMessage{Time: t, Msg: m})
+			if k.trailingZero() && payload[len(payload)-1] != 0 {
+				fatal("encoding of %s does not end in 0x00: ... % x", k, payload[len(payload)-4:])
+			}
 			L.recs = append(L.recs, rec{start: len(want), end: len(want) + 8 + len(payload), payload: payload, marker: mk, desc: k.String()})
 			want = append(want, frame(payload)...)
 			if err := cs.VerifWALWriteAt(w, t, m, sync); err != nil {
@@ -752,10 +757,7 @@ func runImage(u unit, c *collector) {
 		c.add([]viol{{"writer:log-bytes-differ-from-the-framed-written-records", fmt.Sprintf("files hold %d bytes, the written records frame to %d bytes (first difference at %d)", len(L.stream()), len(want), firstDiff(L.stream(), want))}}, base, replay("-"))
 		return
 	}
-	heights := make([]uint64, 0, nextH+1)
-	for h := uint64(0); h <= nextH; h++ {
-		heights = append(heights, h)
-	}
+	heights = append(heights, lastH+1) // 0, every written marker, the first unwritten height
 	w2 := openWAL(path, false)
 	defer closeWAL(w2)
 	if g := w2.Group(); g.MaxIndex()-g.MinIndex()+1 != len(files) {
@@ -819,7 +821,7 @@ func runImage(u unit, c *collector) {
 				cl = "truncation:rotated-file"
 			}
 			desc := fmt.Sprintf("file %s cut to %d of %d bytes", names[k], off, len(orig))
-			d := damage{class: cl, p: L.intactBefore(so), midGroup: !last, cut: last, desc: desc}
+			d := damage{class: cl, p: L.intactBefore(so), midGroup: !last, cut: last, lost: [2]int{so, L.bounds[k+1]}, desc: desc}
 			vs := evalImage(w2, L, d, dh, c.st)
 			if len(vs) > 0 {
 				c.add(vs, base+ord, replay(desc))
